@@ -1,6 +1,6 @@
 """C06 -- every name resolves to the same variable after lowering of scopes."""
 import collections, itertools, json, sys
-from common import Check, fresh_oneliner, load_known_findings
+from common import Check, fresh_oneliner, load_known_findings, StepLimit
 import gen_prog, lower_common, par
 
 OL = None
@@ -113,10 +113,11 @@ def run(code, mode):
         return v
     g = {'log': lambda *a: out.append(repr(norm(a)))}
     try:
-        if mode == 'exec':
-            exec(compile(code, '<s>', 'exec'), g)
-        else:
-            eval(compile(code, '<o>', 'eval'), g)
+        with StepLimit():
+            if mode == 'exec':
+                exec(compile(code, '<s>', 'exec'), g)
+            else:
+                eval(compile(code, '<o>', 'eval'), g)
     except BaseException as e:
         return out, type(e).__name__
     return out, None
